@@ -717,3 +717,72 @@ def runs_every_molecule(ck, rel, clsname, rule, allow_filter=None):
                 not any(isinstance(n, (ast.Break, ast.Return)) for n in ast.walk(lps[0]))
             how = 'loop over {} calling run_molecule under {}'.format(u(lps[0].iter), flow.show(calls[0][2])[:60] if calls else '?')
     ck.ob(rule, module.loc(rs), ok, '{}.run_system treats every molecule of the system: {}'.format(clsname, how), key='{}|{}'.format(rule, clsname))
+
+
+# ----------------------------------------------------------------------------------------------------------------------
+# EXC: which errors are absorbed where
+def _handler_action(h):
+    """How control leaves the handler: raise / return / continue / break / exit, or falls through (the error is absorbed and the code goes on)."""
+    kinds = set()
+    for st in h.body:
+        for n in ast.walk(st):
+            if isinstance(n, ast.Raise):
+                kinds.add('raise')
+            elif isinstance(n, ast.Return):
+                kinds.add('return')
+            elif isinstance(n, ast.Continue):
+                kinds.add('continue')
+            elif isinstance(n, ast.Break):
+                kinds.add('break')
+            elif isinstance(n, ast.Call) and call_name(n) in ('sys.exit', 'exit'):
+                kinds.add('exit')
+    last = h.body[-1]
+    if not isinstance(last, (ast.Raise, ast.Return, ast.Continue, ast.Break)):
+        kinds.add('fallthrough')
+    return sorted(kinds)
+
+
+def handler_table(module):
+    """{qualname: [[exception types..., action kinds...], ...]} in source order."""
+    out = {}
+    for qual, fn in module.functions.items():
+        rows = []
+        for node in walk_local(fn):
+            if isinstance(node, ast.Try):
+                for h in node.handlers:
+                    if h.type is None:
+                        types = ['<bare>']
+                    elif isinstance(h.type, ast.Tuple):
+                        types = sorted(u(e) for e in h.type.elts)
+                    else:
+                        types = [u(h.type)]
+                    rows.append([types, _handler_action(h)])
+        if rows:
+            out[qual] = sorted(rows)
+    return out
+
+
+def handlers_unchanged(ck, rels, rule='EXC-handlers'):
+    import json
+    import os
+    path = os.path.join(os.path.dirname(os.path.dirname(os.path.abspath(__file__))), 'handlers.json')
+    with open(path) as handle:
+        ref = json.load(handle)
+    n = 0
+    for rel in rels:
+        module = ck.index.mod(rel)
+        now = handler_table(module)
+        want = ref.get(rel, {})
+        for qual in sorted(set(now) | set(want)):
+            if qual not in module.functions and qual in want:
+                continue    # the function is gone: anchors of the property's own rules decide that
+            a, b = now.get(qual, []), want.get(qual, [])
+            n += max(len(a), len(b), 1)
+            extra = [r for r in a if r not in b]
+            missing = [r for r in b if r not in a]
+            ck.ob(rule, module.loc(module.functions[qual]) if qual in module.functions else rel, not extra and not missing,
+                  '{}: exception handlers as triaged ({} handler(s)){}{}'.format(
+                      qual, len(b), '; new or widened: {}'.format(extra) if extra else '', '; removed or narrowed: {}'.format(missing) if missing else '') +
+                  ('' if not (extra or missing) else ' -- which errors this function absorbs (and what it does then) changed'),
+                  key='{}|{}|{}'.format(rule, rel, qual))
+    ck.extra['handlers_compared'] = n
